@@ -1,3 +1,3 @@
--- Model driver for property C17 (stub until the property's model exists).
-import GojaModel.Base.Proto
-def main : IO Unit := GojaModel.Proto.lineMap (fun _ => "unimplemented")
+-- Model driver for property C17.
+import GojaModel.C17.Driver
+def main : IO Unit := GojaModel.C17.Driver.main
